@@ -183,29 +183,8 @@ func (n *BitcoinNode) handleHeadersVerify(ctx context.Context, header *wire.Mess
 		return nil
 	}
 
-	n.Lock()
-	if n.headerHandler != nil {
-		// Stream data through alternate header handler by teeing the reader so all read bytes will
-		// go through the buffer to the other handler.
-		buffer := threads.NewWaitingBuffer()
-		r = io.TeeReader(r, buffer)
-
-		var wait sync.WaitGroup
-		thread := threads.NewUninterruptableThread("Handle Headers",
-			func(ctx context.Context) error {
-				return n.headerHandler(ctx, header, buffer)
-			})
-		thread.SetWait(&wait)
-
-		thread.Start(ctx)
-
-		// "defers" are executed LIFO, so this will happen after the discard below, which is what we
-		// want so the alternate handler will see the full message.
-		defer waitWithWarning(ctx, &wait, "otherHeaderHandler")
-		defer buffer.Close() // we need to close the buffer to stop the thread if it didn't finish
-	}
-	n.Unlock()
-
+	// The alternate header handler is not given these headers. They are from a node that has not been
+	// verified to be on the correct chain yet.
 	counter := threads.NewWriteCounter()
 	rc := io.TeeReader(r, counter)
 	defer DiscardInputWithCounter(r, header.Length, counter)
